@@ -122,6 +122,20 @@ class GoGen:
             return self.binary(ast, old)
         if k == "call":
             return self.call(ast[1], ast[2], old)
+        if k == "sum":
+            _, var, lo, hi, body = ast
+            lo = self.num(self.tr(lo, old))
+            hi = self.num(self.tr(hi, old))
+            acc = "bs(0)"
+            saved = self.bound.get(var)
+            for i in range(lo, hi):
+                self.bound[var] = ("num", i, None)
+                acc = "add(%s, %s)" % (acc, self.big(self.tr(body, old)))
+            if saved is None:
+                self.bound.pop(var, None)
+            else:
+                self.bound[var] = saved
+            return ("int", acc, None)
         if k in ("forall", "exists"):
             _, var, lo, hi, body = ast
             lo = self.num(self.tr(lo, old))
